@@ -770,3 +770,162 @@ def spec_req(effect_idx, sh, ast, rules, subs, grouping, user_fns, req):
     return (2, [effect_idx, wire_world(sh, rules, grouping, user_fns), sh.sfx, sh.sfx, sh.rdef, sh.pdef,
                 [wire_value(v) for v in req], wire_expr(ast),
                 [[list(r), [[f, wire_expr(x)] for f, x in sorted(sb.items())]] for r, sb in zip(rules, subs)]])
+
+
+# ------------------------------------------------------------------------------ ONE enforcer through several worlds
+# A "world" is an ordinary case (shape, matcher lines, rules, grouping, registered user functions, requests, effect)
+# plus optional keys:
+#   via       "set_model": the matcher/effect is replaced on the living enforcer by set_model(new Model)
+#   swap_rm   the role manager objects are replaced (set_named_role_manager + build_role_links) before this world's
+#             grouping changes are applied
+#   reenter   a request that every registered user function asks the SAME enforcer before answering (a nested
+#             question; the function's value is unchanged)
+#   ask       "plain": on a shape with second definitions the requests are made WITHOUT a context (definitions r, p,
+#             e, m of the same model, rules plain_rules)
+# The property quantifies over models, policies, role assignments and function tables: what a rule's matcher evaluates
+# to is a function of the CURRENT ones - not of what the same enforcer evaluated before.
+def world_text(c):
+    sh = SHAPE_BY_NAME[c["shape"]]
+    return model_text(sh, "m" + sh.sfx, c["lines"], c["effect"])
+
+
+def _wrap_reentrant(fn, state):
+    def f(*args):
+        nested = state.get("nested")
+        if nested is not None and not state["busy"]:
+            state["busy"] = True
+            try:
+                nested()
+            except Exception:  # noqa
+                pass
+            finally:
+                state["busy"] = False
+        return fn(*args)
+    return f
+
+
+def run_real_seq(worlds, requests_of):
+    """worlds: list of world dicts; requests_of(i) -> the request values of world i (Obj instances shared with the
+    oracle requests).  Returns one list of observations per world ([0, decision] / [999, code] per request) and a
+    harness note when a world's rules were not stored as given."""
+    e, prev, state, note = None, None, {"nested": None, "busy": False}, None
+    out = []
+    for i, c in enumerate(worlds):
+        sh = SHAPE_BY_NAME[c["shape"]]
+        text = world_text(c)
+        pt = "p" + sh.sfx
+        rules = [list(r) for r in c["rules"]]
+        plain_rules = [list(r) for r in c.get("plain_rules") or []]
+        grouping = {g: [list(r) for r in c["grouping"].get(g, [])] for g, _ in sh.gdefs}
+        reqs = requests_of(i)
+
+        def add_all():
+            for r in rules:
+                e.add_named_policy(pt, *r)
+            if sh.sfx:
+                for r in plain_rules:
+                    e.add_named_policy("p", *r)
+            for g, grules in grouping.items():
+                for gr in grules:
+                    e.add_named_grouping_policy(g, *gr)
+        try:
+            same = (e is not None and prev is not None and world_text(prev) == text and c.get("via") != "set_model"
+                    and set(prev["user_fns"]) <= set(c["user_fns"]))
+            if e is None:
+                m = Model()
+                m.load_model_from_text(text)
+                e = casbin.Enforcer(m)
+                for name in c["user_fns"]:
+                    e.add_function(name, _wrap_reentrant(USER_FNS[name], state))
+                add_all()
+            elif not same:
+                m = Model()
+                m.load_model_from_text(text)
+                e.set_model(m)
+                e.clear_policy()
+                for name in c["user_fns"]:
+                    e.add_function(name, _wrap_reentrant(USER_FNS[name], state))
+                add_all()
+                e.build_role_links()
+            else:
+                for name in c["user_fns"]:
+                    if name not in prev["user_fns"]:
+                        e.add_function(name, _wrap_reentrant(USER_FNS[name], state))
+                if c.get("swap_rm"):
+                    for g, _ in sh.gdefs:
+                        old = e.get_named_role_manager(g)
+                        e.set_named_role_manager(g, type(old)(10))
+                    e.build_role_links()
+                old_rules = [list(r) for r in prev["rules"]]
+                old_plain = [list(r) for r in prev.get("plain_rules") or []]
+                kept = [r for r in old_rules if r in rules]
+                keptp = [r for r in old_plain if r in plain_rules]
+                if rules[:len(kept)] == kept and plain_rules[:len(keptp)] == keptp:
+                    for r in old_rules:
+                        if r not in rules:
+                            e.remove_named_policy(pt, *r)
+                    for r in rules[len(kept):]:
+                        e.add_named_policy(pt, *r)
+                    if sh.sfx:
+                        for r in old_plain:
+                            if r not in plain_rules:
+                                e.remove_named_policy("p", *r)
+                        for r in plain_rules[len(keptp):]:
+                            e.add_named_policy("p", *r)
+                    for g, _ in sh.gdefs:
+                        oldg = [list(r) for r in prev["grouping"].get(g, [])]
+                        for gr in oldg:
+                            if gr not in grouping[g]:
+                                e.remove_named_grouping_policy(g, *gr)
+                        for gr in grouping[g]:
+                            if gr not in oldg:
+                                e.add_named_grouping_policy(g, *gr)
+                else:
+                    e.clear_policy()
+                    add_all()
+            stored = [list(r) for r in e.get_named_policy(pt)]
+            if stored != rules and note is None:
+                note = f"world {i}: stored {pt} rules {stored} are not the rules put there {rules}"
+        except Exception as exc:  # noqa
+            out.append([[999, classify(exc)] for _ in reqs])
+            e, prev = None, None
+            continue
+        plain = c.get("ask") == "plain"
+
+        def ask(req):
+            if sh.sfx and not plain:
+                ctx = e.new_enforce_context(sh.sfx)
+                if c.get("etype") is not None:
+                    ctx.etype = c["etype"]
+                return e.enforce(ctx, *req)
+            return e.enforce(*req)
+        nested_req = c.get("reenter")
+        state["nested"] = (lambda: ask([value_from_desc(v) for v in nested_req])) if nested_req is not None else None
+        obs = []
+        for req in reqs:
+            try:
+                d = ask(req)
+                obs.append([0, int(d)] if isinstance(d, bool) else [998, repr(d)])
+            except Exception as exc:  # noqa
+                obs.append([999, classify(exc)])
+        state["nested"] = None
+        out.append(obs)
+        prev = c
+    return out, note
+
+
+def world_oracle_reqs(c, reqs, subs, ast):
+    """(model requests, spec requests) of one world for the given request values"""
+    sh = SHAPE_BY_NAME[c["shape"]]
+    text = world_text(c)
+    if c.get("ask") == "plain":
+        acl = SHAPE_BY_NAME["acl"]
+        pr = [list(r) for r in c.get("plain_rules") or []]
+        world = [[], sorted(c["user_fns"]), [["p", pr]]]
+        mq = [(1, [text, "r", "p", "e", "m", world, [wire_value(v) for v in r]]) for r in reqs]
+        sq = [spec_req(0, acl, ACL3, pr, [{} for _ in pr], {}, c["user_fns"], r) for r in reqs]
+        return mq, sq
+    eff = c["effect"] if c.get("etype") is None else 0
+    mq = [model_req(text, sh, c["rules"], c["grouping"], c["user_fns"], r, c.get("etype")) for r in reqs]
+    sq = [spec_req(eff, sh, ast, c["rules"], subs, c["grouping"], c["user_fns"], r) for r in reqs]
+    return mq, sq
